@@ -365,6 +365,98 @@ func c04(repo string, out *fg.Out) error {
 		}
 		siteNames = append(siteNames, s.recv+"."+s.fn)
 	}
+	// name validation is a pass of its own that is complete before the first record is handed to the buffer:
+	// every validator call precedes every write call, and no loop contains both a validator and a write
+	isWrite := func(c *ast.CallExpr) bool {
+		switch fg.CalleeName(c) {
+		case "WriteColumnarRecord", "WriteTypedColumnarDirect", "WriteColumnarDirect", "importCSV", "importParquet":
+			return true
+		case "Write":
+			if se, ok := c.Fun.(*ast.SelectorExpr); ok {
+				if inner, ok := se.X.(*ast.SelectorExpr); ok && inner.Sel.Name == "arrowBuffer" {
+					return true
+				}
+			}
+		}
+		return false
+	}
+	isValidator := func(c *ast.CallExpr) bool {
+		n := fg.CalleeName(c)
+		return n == "isValidMeasurementName" || n == "isValidDatabaseName" || n == "importPreamble"
+	}
+	validationFirst := true
+	var vfSites []string
+	for _, s := range []site{
+		{"internal/api/msgpack.go", "MsgPackHandler", "writeMsgPack"},
+		{"internal/api/lineprotocol.go", "LineProtocolHandler", "handleWrite"},
+		{"internal/api/tle.go", "TLEHandler", "handleWrite"},
+		{"internal/api/import.go", "ImportHandler", "handleLineProtocolImport"},
+		{"internal/api/import.go", "ImportHandler", "handleTLEImport"},
+		{"internal/api/import_inprocess.go", "ImportHandler", "handleCSVImport"},
+		{"internal/api/import_inprocess.go", "ImportHandler", "handleParquetImport"},
+	} {
+		hf, e := fg.ParseFile(repo, s.file)
+		if e != nil {
+			return e
+		}
+		fd := hf.FuncDecl(s.recv, s.fn)
+		if fd == nil || fd.Body == nil {
+			return fmt.Errorf("%s.%s not found", s.recv, s.fn)
+		}
+		var lastVal, firstWrite token.Pos = token.NoPos, token.NoPos
+		nVal, nWrite := 0, 0
+		ast.Inspect(fd.Body, func(n ast.Node) bool {
+			if c, ok := n.(*ast.CallExpr); ok {
+				if isValidator(c) {
+					nVal++
+					if c.Pos() > lastVal {
+						lastVal = c.Pos()
+					}
+				}
+				if isWrite(c) {
+					nWrite++
+					if firstWrite == token.NoPos || c.Pos() < firstWrite {
+						firstWrite = c.Pos()
+					}
+				}
+			}
+			return true
+		})
+		if nVal == 0 || nWrite == 0 {
+			return fmt.Errorf("%s.%s: expected name validators and a buffer write (found %d / %d)", s.recv, s.fn, nVal, nWrite)
+		}
+		ok := lastVal < firstWrite
+		ast.Inspect(fd.Body, func(n ast.Node) bool {
+			var body *ast.BlockStmt
+			switch l := n.(type) {
+			case *ast.RangeStmt:
+				body = l.Body
+			case *ast.ForStmt:
+				body = l.Body
+			}
+			if body == nil {
+				return true
+			}
+			hasV, hasW := false, false
+			ast.Inspect(body, func(m ast.Node) bool {
+				if c, ok := m.(*ast.CallExpr); ok {
+					hasV = hasV || isValidator(c)
+					hasW = hasW || isWrite(c)
+				}
+				return true
+			})
+			if hasV && hasW {
+				ok = false
+			}
+			return true
+		})
+		if ok {
+			vfSites = append(vfSites, s.recv+"."+s.fn)
+		} else {
+			validationFirst = false
+		}
+	}
+
 	// import handlers flush synchronously on the request goroutine
 	for _, s := range []site{{"internal/api/import_inprocess.go", "ImportHandler", "importCSV"}, {"internal/api/import_inprocess.go", "ImportHandler", "importParquet"},
 		{"internal/api/import.go", "ImportHandler", "handleLineProtocolImport"}, {"internal/api/import.go", "ImportHandler", "handleTLEImport"}} {
@@ -430,6 +522,8 @@ func c04(repo string, out *fg.Out) error {
 	fmt.Fprintf(w, "def dbNameMaxLen : Nat := 64\n")
 	fmt.Fprintf(w, "def measNameMaxLen : Nat := 128\n")
 	fmt.Fprintf(w, "/-- handlers that call isValidDatabaseName before buffering -/\ndef dbValidatedAt : List String := [%s]\n", leanStrs(siteNames))
+	fmt.Fprintf(w, "/-- in every write/import handler all name validation is complete before the first record is handed to the buffer (no loop validates and writes) -/\ndef namesValidatedBeforeAnyWrite : Bool := %s\n", b(validationFirst))
+	fmt.Fprintf(w, "def validationFirstAt : List String := [%s]\n", leanStrs(vfSites))
 	fmt.Fprintf(w, "def importRejectsEmptyName : Bool := %s\n", b(importRejectsEmpty))
 	fmt.Fprintf(w, "def extractMeasurementsSkipsEmpty : Bool := %s\n", b(emSkipsEmpty))
 	fmt.Fprintf(w, "/-- NewServer installs fiber's recover middleware -/\ndef handlerPanicsRecovered : Bool := %s\n", b(handlerRecover))
@@ -448,6 +542,7 @@ func c04(repo string, out *fg.Out) error {
 	out.JSON["env_header_cap"] = envCap
 	out.JSON["handler_panics_recovered"] = handlerRecover
 	out.JSON["write_atomic"] = writeAtomic
+	out.JSON["names_validated_before_any_write"] = validationFirst
 	return nil
 }
 
